@@ -150,15 +150,9 @@ def model(ctx, depth):
     return n, bad
 
 
-_cache = {}
-
-
 def report(ctx, rule):
     depth = 3 if ctx.tier == "quick" else 4
-    key = (id(ctx.repo), depth)
-    if key not in _cache:
-        _cache[key] = model(ctx, depth)
-    n, bad = _cache[key]
+    n, bad = model(ctx, depth)
     f = ctx.repo.method(RX, "_resolve")
     ctx.abstract_cases += n
     if not bad:
